@@ -113,6 +113,22 @@ fn twin(prop: &str, i: u64, rng: &mut Rng, out: &mut Outcome, dir: &Path) {
     let s = members[n - 1];
     let g = w.create_group(&members, &[members[0], members[1]], None, "twin");
     let mut dummy = vec![];
+    // in four of ten segments the subject's rollback-snapshot queue is FULL when its database is
+    // copied: `retention`..`retention`+3 linear commits first (a queue re-read from storage then has
+    // to keep its order and its bound while new snapshots are added)
+    if i % 10 < 4 {
+        for k in 0..retention + rng.below(4) {
+            w.t += 2;
+            let t0 = w.t;
+            let kind = if k % 2 == 0 { CommitKind::SelfUpdate } else { CommitKind::Rename };
+            if let Some(ci) = w.act_commit(members[0], g, &kind, t0, OwnMode::Immediate, k as u64, rng) {
+                for &m in members.iter().skip(1) {
+                    w.deliver(m, ci, OwnMode::Echo);
+                }
+            }
+        }
+        out.count("segments_starting_with_a_full_snapshot_queue");
+    }
     // ---- phase A: anything may happen, the subject acts too ------------------------------------
     for _ in 0..rng.range(8, 25) {
         world_step(&mut w, g, rng, None, s, &mut dummy, retention);
@@ -191,12 +207,22 @@ fn twin(prop: &str, i: u64, rng: &mut Rng, out: &mut Outcome, dir: &Path) {
         w.groups[g].invited.insert(s2);
         out.count("twin_runs");
         let mut restarts = 0;
+        // epoch -> delivery step at which the restarted twin applied that epoch's commit (its
+        // rollback snapshot was taken then); epochs applied before the copy are absent
+        let mut applied_step: std::collections::HashMap<u64, usize> = Default::default();
+        let mut last_restart_step: Option<usize> = None;
         for (k, &idx) in deliveries.iter().enumerate() {
             if rset.contains(&k) {
                 w.clients[s2].restart();
                 restarts += 1;
+                last_restart_step = Some(k);
             }
             let d = w.deliver(s2, idx, OwnMode::Echo);
+            if let (Some(b), Some(a)) = (&d.before, &d.after)
+                && a.1 == b.1 + 1
+            {
+                applied_step.insert(b.1, k);
+            }
             let class = format!("{}{}", d.class, if d.rollbacks.is_empty() { String::new() } else { format!(" ROLLBACK->{}", d.rollbacks[0].target_epoch) });
             let fp2 = w.clients[s2].fp(&gid);
             out.count("steps_compared");
@@ -207,7 +233,23 @@ fn twin(prop: &str, i: u64, rng: &mut Rng, out: &mut Outcome, dir: &Path) {
                 // history-derived predicate: the twin without restarts rolled back on this event,
                 // the restarted twin holds a snapshot for that epoch (hydrated from storage) and refused
                 let p = &w.log[idx];
-                let pred = if c1n.contains("ROLLBACK") && !class.contains("ROLLBACK") && p.kind == PubKind::Commit { "better-commit-after-restart-not-recognised" } else if *fp1 != fp2 && same_class { "same-result-different-state" } else { "unexplained" };
+                // ... AND that snapshot was taken before the most recent restart (only then it has
+                // been re-read from storage without the commit's timestamp): a snapshot taken in the
+                // current process must still work
+                let snapshot_predates_restart = match (applied_step.get(&p.at.1), last_restart_step) {
+                    (None, _) => true, // applied before the database was copied: the twin itself starts from a re-opened file
+                    (Some(_), None) => false,
+                    (Some(a), Some(r)) => a < &r,
+                };
+                let pred = if c1n.contains("ROLLBACK") && !class.contains("ROLLBACK") && p.kind == PubKind::Commit && snapshot_predates_restart {
+                    "better-commit-after-restart-not-recognised"
+                } else if c1n.contains("ROLLBACK") && !class.contains("ROLLBACK") && p.kind == PubKind::Commit {
+                    "better-commit-not-recognised-although-its-snapshot-was-taken-after-the-last-restart"
+                } else if *fp1 != fp2 && same_class {
+                    "same-result-different-state"
+                } else {
+                    "unexplained"
+                };
                 let parts = fp1.diff(&fp2);
                 let first_diff = parts.first().map(|p| format!("{p}: `{}` vs `{}`", crate::util::short(fp1.part(p), 400), crate::util::short(fp2.part(p), 400))).unwrap_or_default();
                 out.violation(
